@@ -5,6 +5,7 @@ import time
 import ssl
 import sys
 from functools import partial
+from threading import RLock
 from pymodbus.constants import Defaults
 from pymodbus.utilities import hexlify_packets, ModbusTransactionState
 from pymodbus.factory import ClientDecoder
@@ -41,6 +42,7 @@ class BaseModbusClient(ModbusClientMixin):
         :param framer: The modbus framer implementation to use
         """
         self.framer = framer
+        self._execute_lock = RLock()
         self.transaction = DictTransactionManager(self, **kwargs)
         self._debug = False
         self._debugfd = None
@@ -103,9 +105,12 @@ class BaseModbusClient(ModbusClientMixin):
         :param request: The request to process
         :returns: The result of the request execution
         """
-        if not self.connect():
-            raise ConnectionException("Failed to connect[%s]" % (self.__str__()))
-        return self.transaction.execute(request)
+        # connecting is part of the transaction: two threads must not both
+        # find the client unconnected and replace each other's socket
+        with self._execute_lock:
+            if not self.connect():
+                raise ConnectionException("Failed to connect[%s]" % (self.__str__()))
+            return self.transaction.execute(request)
 
     # ----------------------------------------------------------------------- #
     # The magic methods
